@@ -345,3 +345,100 @@ def fold_cache_events(evs, thread="t0"):
         elif e["event"] in ("Resolved", "Selected", "Rendered"):
             stage.append(e)
     return cache, stage
+
+
+# --------------------------------------------------------------------------------------
+# the cache histories of the rustc processes (Trace_Suite / TraceCache.tla)
+# --------------------------------------------------------------------------------------
+def options_from_event(ln):
+    """library options equal to what the derive built (as recorded), for a fresh-process baseline"""
+    import c18
+    o = c18.obs_of(ln)
+    lib = {"mode": "derive", "operation_name": o["operation_name"], "struct_ident": o["struct_ident"],
+           "normalization": o["normalization"], "deprecation": o["deprecated"],
+           "fragments_other_variant": o["fragments_other_variant"], "skip_serializing_none": o["skip_serializing_none"],
+           "module_visibility": o["module_visibility"] or "inherited", "serde_path": o["serde_path"],
+           "query_file": o["query_file"]}
+    for k in ("response_derives", "variables_derives", "custom_scalars_module"):
+        if o[k + "_set"]:
+            lib[k] = o[k]
+    if o["extern_enums"]:
+        lib["extern_enums"] = o["extern_enums"]
+    return lib
+
+
+def cache_universe_and_trace(lines, symbol_of):
+    """lines: OptionsBuilt records in file order; symbol_of(k, line, pure) -> observed outcome class of the hook
+    call of line k.  Returns (universe, trace, nprocesses)."""
+    paths = {}
+
+    def pid_of(p):
+        if p not in paths:
+            paths[p] = "f%d" % (len(paths) + 1)
+        return paths[p]
+    calls, files = {}, {}
+    per_pid = {}
+    for k, ln in enumerate(lines):
+        per_pid.setdefault(ln["pid"], []).append(k)
+        q, s = pid_of(ln["query_path"]), pid_of(ln["schema_path"])
+        o = "o" + hashlib.sha1((ln["dump"] + "|" + ln["ident"]).encode()).hexdigest()[:8]
+        for c in ("h%d" % k, "r%d" % k):
+            calls[c] = {"q": q, "s": s, "o": o}
+    for p, i in paths.items():
+        fid = file_id(p)
+        files[i] = {"status": "missing" if fid == "missing" else "ok", "content": "" if fid == "missing" else fid}
+
+    def pure(c):
+        d = calls[c]
+        return "ok:%s/%s/%s" % (files[d["q"]]["content"], files[d["s"]]["content"], d["o"])
+
+    def ev(a, call="", c="", kind="", outcome="", plan=None):
+        return {"a": a, "plan": plan or {}, "t": "t0" if a != "Reset" else "", "call": call, "c": c, "kind": kind, "outcome": outcome}
+    trace = []
+    for pid, ks in per_pid.items():
+        plan = []
+        for n, k in enumerate(ks):
+            if n > 0:
+                plan.append("r%d" % ks[n - 1])
+            plan.append("h%d" % k)
+        trace.append(ev("Reset", plan={"t0": plan}))
+        for n, k in enumerate(ks):
+            ln = lines[k]
+            if n > 0:
+                c = "r%d" % ks[n - 1]          # the real call of the previous derive: its events were drained now
+                trace.append(ev("Begin", c))
+                for e in fold_cache_events(ln["pre_events"])[0]:
+                    trace.append(ev(e["a"], c=e["c"], kind=e.get("kind", "")))
+                trace.append(ev("End", c, outcome=pure(c)))   # its tokens went to rustc: outcome not observed
+            c = "h%d" % k
+            trace.append(ev("Begin", c))
+            for e in fold_cache_events(ln["events"])[0]:
+                trace.append(ev(e["a"], c=e["c"], kind=e.get("kind", "")))
+            trace.append(ev("End", c, outcome=symbol_of(k, ln, pure(c))))
+    return {"files": files, "calls": calls}, trace, len(per_pid)
+
+
+def pipeline_trace(lines, site_of):
+    """stage events of every hook call (and of the real calls) in the vocabulary of Trace_Pipeline"""
+    blank = {"a": "", "ops": [], "requested": "", "normalization": "", "mode": "", "loadable": True, "valid": True,
+             "names": [], "name": "", "outcome": ""}
+    import c18
+    trace = []
+    for k, ln in enumerate(lines):
+        try:
+            ops = operation_names(open(ln["query_path"], encoding="utf-8").read())
+        except OSError:
+            continue
+        o = c18.obs_of(ln)
+        begin = dict(blank, a="Begin", ops=ops, requested=ln["ident"], normalization=o["normalization"], mode="derive")
+        for evs, outcome in ((ln["events"], ln["status"]),):
+            trace.append(begin)
+            for e in fold_cache_events(evs)[1]:
+                if e["event"] == "Resolved":
+                    trace.append(dict(blank, a="Resolved"))
+                elif e["event"] == "Selected":
+                    trace.append(dict(blank, a="Selected", names=[x for x in e["key"].split(",") if x]))
+                else:
+                    trace.append(dict(blank, a="Rendered", name=e["key"]))
+            trace.append(dict(blank, a="End", outcome=outcome))
+    return trace
